@@ -530,6 +530,18 @@ class Evaluator:
             tot = (tot + self.expand_to(arr, idx, target)) % self.p
         return tot
 
+    def value_outer(self, expr, target):
+        """like value(), but the terms are not expanded: a contracted index is
+        summed once over the whole term, brackets (sums) are factors of the term
+        (the reading of adcgen's Term: a Polynom is one object of the term)."""
+        target = list(target)
+        tot = np.zeros(tuple(len(self.m.domain(s)) for s in target),
+                       dtype=np.int64)
+        for t in terms_of(to_sympy(expr)):
+            arr, idx = self.term_arr(t, keep=target)
+            tot = (tot + self.expand_to(arr, idx, target)) % self.p
+        return tot
+
     def value_einstein(self, expr):
         """Einstein convention per term; -> (union of targets, array)"""
         expr = to_sympy(expr).expand()
